@@ -2,7 +2,7 @@
     Reverse complement, subsequence and copy obey their algebraic laws. *)
 From Coq Require Import NArith ZArith List Bool.
 From OBI.C07.Gen Require Import Tables.
-From OBI.C07 Require Import Model Proofs Heap HeapProofs Trace Proofs2.
+From OBI.C07 Require Import Model Proofs Heap HeapProofs Trace Proofs2 Proofs3.
 Import ListNotations.
 Open Scope N_scope.
 
@@ -277,6 +277,66 @@ Theorem C07_setfeatures_orig_refuted :
   cval_of cs3 0 = Some (mkv [97;99;103;116] [] None [103;103] None).
 Proof. exact setfeatures_orig_refuted. Qed.
 
+(** ================= round 3 *)
+
+(** In-place edits the histories now run on the real objects (Clear, ClearQualities, WriteQualities / WriteByteQualities, Grow; they
+    are operations [OEdit] of the value semantics and [CEdit] of the ownership model, so C07_no_shared_state,
+    C07_ownership_invariant and C07_trace_accepted_is_value_run quantify over them too). Used the way the readers use them - Clear with
+    ClearQualities, Write followed by WriteQualities of as many scores as symbols, on an object that has scores or is empty - they keep
+    one score per symbol, and emptying then refilling an object gives exactly the new symbols and scores. *)
+Theorem C07_edits_keep_one_score_per_symbol : forall v s q, qual_ok v ->
+  qual_ok (apply_edit EClearQ (apply_edit EClear v)) /\ qual_ok (apply_edit EGrow v) /\
+  (length s = length q -> vqual v <> [] \/ vseq v = [] -> qual_ok (apply_edit (EWriteQ q) (write_val s v))) /\
+  apply_edit (EWriteQ q) (write_val s (apply_edit EClearQ (apply_edit EClear v))) = mkv s q (vmm v) (vfeat v) (vmate v).
+Proof. exact edits_keep_qual_ok. Qed.
+
+(** Reverse complement of an object extended in place (Write + WriteQualities): both reverse complements succeed and the one of the
+    extended object is the reverse complement of the extension, scores reversed, followed by the one of the object before. A cached
+    reverse complement that survived the extension would be wrong by exactly this prefix. *)
+Theorem C07_rc_of_append : forall v s q, qual_ok v -> omm_ok (vmm v) -> length s = length q -> vqual v <> [] \/ vseq v = [] ->
+  exists w w', rc_val v = Ok w /\ rc_val (apply_edit (EWriteQ q) (write_val s v)) = Ok w' /\
+               vseq w' = rc s ++ vseq w /\ vqual w' = rev q ++ vqual w.
+Proof. exact rc_of_append. Qed.
+
+(** Composition() over the alphabet of the property: the five counters are the numbers of a, c, g, t and of all the other symbols,
+    and add up to the length ... *)
+Theorem C07_composition : forall s, on_iupac s ->
+  composition s = comp5 (cntN 97 s) (cntN 99 s) (cntN 103 s) (othersN s) (cntN 116 s) /\
+  cntN 97 s + cntN 99 s + cntN 103 s + othersN s + cntN 116 s = N.of_nat (length s).
+Proof. exact composition_spec. Qed.
+
+(** ... and the composition of the reverse complement exchanges a with t and c with g. *)
+Theorem C07_composition_of_rc : forall s, on_iupac s ->
+  composition (rc s) = comp5 (cntN 116 s) (cntN 103 s) (cntN 99 s) (othersN s) (cntN 97 s).
+Proof. exact composition_of_rc. Qed.
+
+(** QualitiesString() with the default shift: one printable character (33..126) per score, the string of the reversed scores is the
+    reversed string, and scores up to 93 are read back exactly. *)
+Theorem C07_qualities_string : forall q,
+  length (qual_string 33 q) = length q /\
+  Forall (fun b => 33 <= b <= 126) (qual_string 33 q) /\
+  qual_string 33 (rev q) = rev (qual_string 33 q) /\
+  (Forall (fun x => x <= 93) q -> map (fun b => b - 33) (qual_string 33 q) = q).
+Proof. exact qual_string_spec. Qed.
+
+(** non-vacuity of the round-3 statements: acgt / 1 2 3 4 extended by gn / 7 8 meets the hypotheses; its reverse complement; its
+    composition; and a history of the ownership model with the new edits (the copy taken before is untouched) *)
+Example C07_round3_nonvacuous :
+  let v := mkv [97;99;103;116] [1;2;3;4] None [] None in
+  qual_ok v /\ omm_ok (vmm v) /\ on_iupac [97;99;103;116;103;110] /\
+  rc_val (apply_edit (EWriteQ [7;8]) (write_val [103;110] v)) = Ok (mkv [110;99;97;99;103;116] [8;7;4;3;2;1] None [] None) /\
+  composition [97;99;103;116;103;110] = comp5 1 1 2 1 1 /\
+  qual_string 33 [0;40;93;255] = [33;73;126;126] /\
+  (let '(_, cs) := crun cst0 [CNew [97;99;103;116] [1;2;3;4] None [] true CFresh CFresh CFresh; CCopy 0 CFresh CFresh CFresh;
+                              CEdit 0 EClear; CEdit 0 EClearQ; CWrite 0 [103;110]; CEdit 0 (EWriteQ [7;8]); CEdit 0 EGrow;
+                              CRc 0 true CFresh CFresh CFresh; CRecycle 0; CNew [116] [] None [] true (CPool 0) CFresh CFresh] in
+   cval_of cs 1 = Some (mkv [97;99;103;116] [1;2;3;4] None [] None) /\ cval_of cs 2 = None /\ cval_of cs 3 = Some (mkv [116] [] None [] None)).
+Proof.
+  cbn zeta. split; [right; reflexivity|]. split; [exact I|]. split.
+  - unfold on_iupac. apply (proj2 (Forall_forall _ _)). intros x Hx. cbn in Hx. unfold iupac. cbn. intuition.
+  - vm_compute. repeat split; reflexivity.
+Qed.
+
 
 Print Assumptions C07_comp_model_is_code.
 Print Assumptions C07_comp_is_iupac_complement.
@@ -311,3 +371,8 @@ Print Assumptions C07_recycled_mate_is_stale.
 Print Assumptions C07_trace_accepted_is_value_run.
 Print Assumptions C07_setfeatures_orig_refuted.
 Print Assumptions C07_reachable_states_wf.
+Print Assumptions C07_edits_keep_one_score_per_symbol.
+Print Assumptions C07_rc_of_append.
+Print Assumptions C07_composition.
+Print Assumptions C07_composition_of_rc.
+Print Assumptions C07_qualities_string.
